@@ -44,7 +44,7 @@ Describe(i) == LET e == Steps[i] IN
   [line |-> i, seq |-> e.seq, step |-> e.step, pre |-> e.pre, req |-> e.req, resp |-> e.resp, post |-> e.post,
    expected |-> LET o == Step(e.pre, e.req, K) IN [resp |-> o.resp, post |-> o.s]]
 SelfG(p) == [H |-> [c \in DOMAIN p.ch |-> p.ch[c].curH.htlcs], C |-> [c \in DOMAIN p.ch |-> p.ch[c].curC.htlcs]]
-InFlight(p) == \E h \in DOMAIN p.inv : p.inv[h].amt > 0 /\ GOut(SelfG(p), h) > 0
+InFlight(p) == \E h \in DOMAIN p.inv : p.inv[h].amt >= 0 /\ GOut(SelfG(p), h) > 0
 FirstN(S, n) == LET q == SetToSeq(S) IN SubSeq(q, 1, Min(n, Len(q)))
 \* which sequences violate a clause (one pass; used to minimise a violating history in batches)
 JudgeAll ==
